@@ -196,6 +196,8 @@ def run(chk: Check) -> None:
 
     run_overloads(chk, ix)
     run_diagnostic_parity(chk, ix)
+    run_arg_constructor_guards(chk, ix)
+    run_fstring_collapse(chk, ix)
 
     r3 = chk.rule("R14.3", "Errors.report clamps end_line >= line and (same line) end_column > column before the ErrorInfo is built", floor=2)
     rp = ix.func("mypy.errors.Errors.report")
@@ -324,3 +326,174 @@ def run_diagnostic_parity(chk: Check, ix) -> None:
             r5.ok(key, f"mypy/fastparse.py:{ln}")
         else:
             r5.violation(key, f"mypy/fastparse.py:{ln}", f"the default parser reports message_registry.{name}; nativeparse.py never does: the construct is accepted silently (or diagnosed differently) under --native-parser")
+
+
+def implied_by_flag(f, atom_text: str, flags_tested: set[str]) -> bool:
+    """`V is not D` follows from a tested flag F when D is a fresh object private to the function
+    (bound once to a constructor call, used only as V's initial value and in identity tests) and
+    F is set to True only directly after an assignment `V = <something else>`."""
+    try:
+        t = ast.parse(atom_text, mode="eval").body
+    except SyntaxError:
+        return False
+    if not (isinstance(t, ast.Compare) and len(t.ops) == 1 and isinstance(t.ops[0], ast.IsNot) and isinstance(t.left, ast.Name) and isinstance(t.comparators[0], ast.Name)):
+        return False
+    v, d = t.left.id, t.comparators[0].id
+    binds = [a for a in ast.walk(f.node) if isinstance(a, (ast.Assign, ast.AnnAssign)) and any(isinstance(x, ast.Name) and x.id == d for x in (a.targets if isinstance(a, ast.Assign) else [a.target]))]
+    if len(binds) != 1 or not isinstance(binds[0].value, ast.Call):
+        return False
+    par = f.module.parents()
+    for n in ast.walk(f.node):
+        if isinstance(n, ast.Name) and n.id == d and isinstance(n.ctx, ast.Load):
+            p = par.get(n)
+            ok = (isinstance(p, ast.Compare) and all(isinstance(o, (ast.Is, ast.IsNot)) for o in p.ops)) or (isinstance(p, (ast.Assign, ast.AnnAssign)) and p.value is n and any(isinstance(x, ast.Name) and x.id == v for x in (p.targets if isinstance(p, ast.Assign) else [p.target])))
+            if not ok:
+                return False
+    for fl in flags_tested:
+        sets = [a for a in ast.walk(f.node) if isinstance(a, ast.Assign) and len(a.targets) == 1 and isinstance(a.targets[0], ast.Name) and a.targets[0].id == fl and isinstance(a.value, ast.Constant) and a.value.value is True]
+        if not sets:
+            continue
+        good = True
+        for a in sets:
+            blk = next((b for b in (getattr(par.get(a), "body", None), getattr(par.get(a), "orelse", None)) if isinstance(b, list) and any(x is a for x in b)), None)
+            if blk is None:
+                good = False
+                break
+            i = [k for k, x in enumerate(blk) if x is a][0]
+            prev = blk[i - 1] if i > 0 else None
+            if not (isinstance(prev, ast.Assign) and len(prev.targets) == 1 and isinstance(prev.targets[0], ast.Name) and prev.targets[0].id == v and not (isinstance(prev.value, ast.Name) and prev.value.id == d)):
+                good = False
+                break
+        if good:
+            return True
+    return False
+
+
+def run_arg_constructor_guards(chk: Check, ix) -> None:
+    """R14.6: the two parsers of `Arg(...)`-style argument constructors reject the same calls."""
+    from ..cfg import branch_conditions
+    r6 = chk.rule("R14.6", "TypeConverter.visit_Call (default parser) and read_call_type (native parser) report each argument-constructor diagnostic of message_registry under the same tests on the values they share (name, typ, default_type, constructor, the keyword spelling, the positional index): every test the default parser makes is made by the native parser too, and the native parser adds only tests of its own boolean flags; dropping `name is not None` makes the native parser reject `Arg(int, None, name='x')`, which the default parser accepts", floor=5)
+    fa = ix.func("mypy.fastparse.TypeConverter.visit_Call")
+    fb = ix.func("mypy.nativeparse.read_call_type")
+
+    def locals_of(f):
+        return {n.id for n in ast.walk(f.node) if isinstance(n, ast.Name)}
+    shared = locals_of(fa) & locals_of(fb)
+
+    def flags(f):
+        out = set()
+        cand: dict[str, list] = {}
+        for a in ast.walk(f.node):
+            if isinstance(a, ast.Assign) and len(a.targets) == 1 and isinstance(a.targets[0], ast.Name):
+                cand.setdefault(a.targets[0].id, []).append(a.value)
+        for k, vs in cand.items():
+            if all(isinstance(v, ast.Constant) and isinstance(v.value, bool) for v in vs):
+                out.add(k)
+        return out
+
+    def atom(t: ast.expr, positive: bool) -> str:
+        if isinstance(t, ast.UnaryOp) and isinstance(t.op, ast.Not):
+            return atom(t.operand, not positive)
+        txt = norm(t)
+        if isinstance(t, ast.Compare) and len(t.ops) == 1 and isinstance(t.comparators[0], ast.Constant):
+            root = t.left
+            while isinstance(root, (ast.Attribute, ast.Subscript)):
+                root = root.value
+            if not (isinstance(root, ast.Name) and root.id in shared):
+                txt = f"<subject> {type(t.ops[0]).__name__} {t.comparators[0].value!r}"
+        return ("" if positive else "not ") + txt
+
+    def sites(f):
+        par = f.module.parents()
+        out: dict[str, tuple[set[str], ast.AST]] = {}
+        for c in ast.walk(f.node):
+            if not (isinstance(c, ast.Call) and call_name(c) in ("fail", "add_error")):
+                continue
+            msgs = [x.attr for x in ast.walk(c) if isinstance(x, ast.Attribute) and norm(x.value) == "message_registry"]
+            if not msgs:
+                continue
+            st = c
+            while not isinstance(st, ast.stmt):
+                st = par[st]
+            pos, neg = branch_conditions(par, f.node, st)
+            ats = set()
+            for t in pos:
+                for v in (t.values if isinstance(t, ast.BoolOp) and isinstance(t.op, ast.And) else [t]):
+                    ats.add(atom(v, True))
+            for t in neg:
+                for v in (t.values if isinstance(t, ast.BoolOp) and isinstance(t.op, ast.Or) else [t]):
+                    ats.add(atom(v, False))
+            out[msgs[0]] = (ats, c)
+        return out
+    sa_, sb = sites(fa), sites(fb)
+    common = sorted(set(sa_) & set(sb))
+    if len(common) < 5:
+        raise AnalysisError(f"only {common} argument-constructor diagnostics shared by visit_Call and read_call_type")
+    bflags = flags(fb)
+    for m in common:
+        (aa, ca), (ab, cb) = sa_[m], sb[m]
+        key = f"{m}: reported under the same tests by both parsers"
+        missing = sorted(x for x in aa - ab if not implied_by_flag(fb, x, ab & {f for f in bflags}))
+        extra = sorted(x for x in ab - aa if not ({n.id for n in ast.walk(ast.parse(x.removeprefix('not '), mode='eval')) if isinstance(n, ast.Name)} <= bflags))
+        if missing:
+            r6.violation(key, fb.loc(cb), f"the default parser reports it only when {sorted(aa)}, the native parser when {sorted(ab)}: the native parser does not test {missing}, so it rejects calls the default parser accepts")
+        elif extra:
+            r6.violation(key, fb.loc(cb), f"the native parser additionally requires {extra} (not one of its boolean flags {sorted(bflags)}): it accepts calls the default parser rejects")
+        else:
+            r6.ok(key, fb.loc(cb), f"tests: {sorted(aa)}")
+
+
+def run_fstring_collapse(chk: Check, ix) -> None:
+    """R14.7: text folded out of an f-string's literal run lands in a node that is kept."""
+    r7 = chk.rule("R14.7", "collapse_consecutive_str_items (native parser; the default parser gets adjacent literal pieces already merged by Python's ast) appends the text of a dropped literal piece to a node that is an element of the returned list: the accumulator is bound only to items that the same block puts into the result; folding into the loop's previous item instead loses the third and later pieces of a run, because that item was itself dropped", floor=2)
+    f = ix.func("mypy.nativeparse.collapse_consecutive_str_items")
+    rets = [r.value.id for r in ast.walk(f.node) if isinstance(r, ast.Return) and isinstance(r.value, ast.Name)]
+    params = {a.arg for a in f.node.args.args}
+    outs = {r for r in rets if r not in params}
+    if not outs:
+        raise AnalysisError("collapse_consecutive_str_items: no result list found")
+    out = sorted(outs)[0]
+    augs = [a for a in ast.walk(f.node) if isinstance(a, ast.AugAssign) and isinstance(a.target, ast.Attribute) and a.target.attr == "value" and isinstance(a.target.value, (ast.Name, ast.Subscript))]
+    if not augs:
+        raise AnalysisError("collapse_consecutive_str_items: no `<node>.value += ...` found")
+    par = f.module.parents()
+    for a in augs:
+        tgt = a.target.value
+        key = f"`{norm(a.target)} += ...` modifies an element of `{out}`"
+        if isinstance(tgt, ast.Subscript):
+            if norm(tgt.value) == out:
+                r7.ok(key, f.loc(a))
+            else:
+                r7.violation(key, f.loc(a), f"the text is appended to `{norm(tgt)}`, not to an element of the result")
+            continue
+        v = tgt.id
+        bad = []
+        n_bind = 0
+        for b in ast.walk(f.node):
+            if isinstance(b, ast.For) and any(isinstance(x, ast.Name) and x.id == v for x in ast.walk(b.target)):
+                bad.append(f"`{v}` is a loop variable of `for {norm(b.target)} in {norm(b.iter)}` (line {b.lineno}): an earlier literal piece that was itself folded away")
+            if isinstance(b, ast.Assign) and any(isinstance(t, ast.Name) and t.id == v for t in b.targets):
+                n_bind += 1
+                blk = next((bl for bl in (getattr(par.get(b), "body", None), getattr(par.get(b), "orelse", None)) if isinstance(bl, list) and any(x is b for x in bl)), [])
+                src = norm(b.value)
+                kept = norm(b.value) == f"{out}[-1]"
+                for st in blk:
+                    for c in ast.walk(st):
+                        if isinstance(c, ast.Call) and isinstance(c.func, ast.Attribute) and c.func.attr == "append" and norm(c.func.value) == out and c.args and norm(c.args[0]) in (src, v):
+                            kept = True
+                        if isinstance(c, ast.Assign) and any(norm(t) == out for t in c.targets) and isinstance(c.value, ast.List) and any(norm(e) in (src, v) for e in c.value.elts):
+                            kept = True
+                if not kept:
+                    bad.append(f"`{norm(b)}` (line {b.lineno}) binds it to something the block does not put into `{out}`")
+        if n_bind == 0 and not bad:
+            bad.append(f"`{v}` is never bound to an element of `{out}`")
+        if bad:
+            r7.violation(key, f.loc(a), "; ".join(bad))
+        else:
+            r7.ok(key, f.loc(a), f"{n_bind} bindings of `{v}`, each to an item the same block puts into `{out}`")
+    # position of the merged node is extended too
+    ends = [x for x in ast.walk(f.node) if isinstance(x, ast.Assign) and isinstance(x.targets[0], ast.Attribute) and x.targets[0].attr in ("end_line", "end_column")]
+    if len(ends) >= 2:
+        r7.ok("the merged literal's end position is extended to the folded piece", f.loc(ends[0]))
+    else:
+        r7.violation("the merged literal's end position is extended to the folded piece", f.loc(), "end_line / end_column of the merged StrExpr are no longer updated: its span differs from the one the default parser produces")
